@@ -16,12 +16,15 @@
 (* announcements, 'f4taint' / 'relearned' from the signatures of the known  *)
 (* findings F4 / F2 evaluated on the observed datagrams.                    *)
 (***************************************************************************)
-EXTENDS Gossip, Json
+EXTENDS GossipObs, Json
 
 Log == ndJsonDeserialize("trace.ndjson")
 
-VARIABLES l, viol, drift, sig
-tvars == <<vars, l, viol, drift, sig>>
+VARIABLES l, viol, drift, sig, ref,
+          fold,   \* left fold of the logged watcher notifications (C14)
+          rt,     \* the syncer/routing-table specification folded over the logged notifications
+          obsrt   \* pending set and routing table read from the real syncer + cluster.State (C04)
+tvars == <<vars, l, viol, drift, sig, ref, fold, rt, obsrt>>
 
 -----------------------------------------------------------------------------
 (* JSON -> spec values *)
@@ -50,6 +53,17 @@ NetOf(arr) ==
   [s \in {arr[i].slot : i \in DOMAIN arr} |->
      MsgOf(arr[CHOOSE i \in DOMAIN arr : arr[i].slot = s])]
 EvSeqOf(arr) == [i \in DOMAIN arr |-> [o |-> arr[i].o, t |-> arr[i].t, n |-> arr[i].n, k |-> arr[i].k, v |-> arr[i].v]]
+
+RNodeOf(x) ==
+  [status |-> x.status, proxy |-> x.proxy, admin |-> x.admin,
+   eps |-> [k \in {x.eps[i].e : i \in DOMAIN x.eps} |->
+              x.eps[CHOOSE i \in DOMAIN x.eps : x.eps[i].e = k].c]]
+RMapOf(arr) ==
+  [n \in {arr[i].n : i \in DOMAIN arr} |-> RNodeOf(arr[CHOOSE i \in DOMAIN arr : arr[i].n = n])]
+ObsRTOf(tables, dflt) ==
+  [o \in Node |-> IF Has_(tables, o)
+                  THEN [table |-> RMapOf(Pick(tables, o).nodes), pend |-> RMapOf(Pick(tables, o).pending)]
+                  ELSE dflt[o]]
 
 InitSt == [o \in Node |-> [n \in {o} |-> EmptyView]]
 EmptyQ == [o \in Node |-> <<>>]
@@ -122,10 +136,21 @@ StepViolations(e) ==
                  /\ net[e.slot].dig[i].id \notin Known(net[e.slot].to)
                  /\ net[e.slot].dig[i].id \in DOMAIN st'[net[e.slot].to]
           THEN {"LeftDigestNeverCreates"} ELSE {})
-    \cup (IF e.op \in LocalOps /\ OwnNext(e.n) # Own(e.n) /\ ~(OwnNext(e.n).ver > Own(e.n).ver)
-          THEN {"FreshVersionOnChange"} ELSE {})
-    \cup (IF e.op \in LocalOps /\ OwnNext(e.n).ents = Own(e.n).ents /\ OwnNext(e.n).ver # Own(e.n).ver
+    \cup (IF ~FreshVersionStep THEN {"FreshVersionOnChange"} ELSE {})
+    \cup (IF e.op \in {"UpsertLocal", "DeleteLocal"} /\ LiveMap(OwnNext(e.n)) = LiveMap(Own(e.n))
+             /\ OwnNext(e.n) # Own(e.n)
           THEN {"NoVersionOnNoop"} ELSE {})
+    \cup (IF \E i \in DOMAIN e.tables : \E j \in DOMAIN e.tables[i].lookup :
+               LET lk == e.tables[i].lookup[j]
+                   cand == LookupCandidates(obsrt'[e.tables[i].o], lk.e)
+               IN (lk.n # "" /\ lk.n \notin cand) \/ (lk.n = "" /\ cand # {})
+          THEN {"LookupSound"} ELSE {})
+    \cup (IF e.op = "CompactLocal" /\ OwnNext(e.n) # Own(e.n) /\
+             ~(/\ LiveMap(OwnNext(e.n)) = LiveMap(Own(e.n))
+               /\ Tombstones(OwnNext(e.n)) = {}
+               /\ LiveBefore(OwnNext(e.n)) = LiveBefore(Own(e.n))
+               /\ OwnNext(e.n).left = Own(e.n).left)
+          THEN {"CompactKeepsLive"} ELSE {})
 
 -----------------------------------------------------------------------------
 TraceInit ==
@@ -139,6 +164,16 @@ TraceInit ==
   /\ written = [n \in Node |-> {}]
   /\ expiredBy = EmptyS
   /\ f4taint = {} /\ relearned = {}
+  /\ ref = [n \in Node |-> <<>>]
+  /\ obs = 0
+  /\ fold = [o \in Node |-> EmptyFold]
+  /\ rt = [o \in Node |-> EmptyRT]
+  /\ obsrt = [o \in Node |-> EmptyRT]
+
+\* the reference map of a node read from an observed own state (used at resets)
+RefFromOwn(s) ==
+  LET live == {e \in s.ents : ~e.del /\ ~e.int}
+  IN [k \in {e.k : e \in live} |-> (CHOOSE e \in live : e.k = k).v]
 
 NewOf(o) == DOMAIN st'[o] \ Known(o)
 
@@ -176,8 +211,17 @@ TraceNext ==
              ELSE IF e.op = "RemoveExpired"
                   THEN {p \in relearned : ~(p[1] = e.a /\ p[2] \in Range(e.ord))}
              ELSE relearned
+        /\ ref' = IF reset THEN [n \in Node |-> RefFromOwn(st'[n][n])]
+                  ELSE IF e.op = "UpsertLocal" THEN [ref EXCEPT ![e.n] = (e.k :> e.v) @@ @]
+                  ELSE IF e.op = "DeleteLocal" THEN [ref EXCEPT ![e.n] = (e.k :> Absent) @@ @]
+                  ELSE ref
+        /\ obs' = 0
+        /\ fold' = FoldAll(IF reset THEN [o \in Node |-> EmptyFold] ELSE fold, evts')
+        /\ rt' = SyncAll(IF reset THEN [o \in Node |-> EmptyRT] ELSE rt, evts')
+        /\ obsrt' = ObsRTOf(e.tables, rt')
         /\ viol' = StepViolations(e)
         /\ drift' = drift + (IF reset \/ (CoreOK(e) /\ EvOK(e)) THEN 0 ELSE 1)
+                          + (IF obsrt' = rt' THEN 0 ELSE 1)
         /\ sig' = [f2 |-> sig.f2 + Cardinality(relearned' \ relearned),
                    f4 |-> sig.f4 + Cardinality(f4taint' \ f4taint)]
 
@@ -185,6 +229,12 @@ TraceSpec == TraceInit /\ [][TraceNext]_tvars
 
 -----------------------------------------------------------------------------
 NoStepViolation == viol = {}
+MatchesRef == MatchesRefOf(ref)
+FoldEqualsView == FoldEqualsViewOf(fold)
+CaughtUpMirrors == CaughtUpMirrorsOf(obsrt)
+CaughtUpMirrorsAll == CaughtUpMirrorsStrictOf(obsrt)
+StatusTracks == StatusTracksOf(obsrt)
+NoOrphans == NoOrphansOf(obsrt)
 
 \* the whole file was consumed; the counters are printed for the orchestrator
 Consumed ==
